@@ -107,10 +107,18 @@ def run_traces(c, consts, traces, tag, timeout=900, heap=None):
     Returns (TLCResult, index) where index[line-1] = (trace number, event number or -1)."""
     lines, index = [], []
     for ti, (name, evs) in enumerate(traces):
-        lines.append(json.dumps({"ev": "Reset", "trace": name}))
-        index.append((ti, -1))
+        num = {}                       # numbering of the keys of this trace (index into the observation table)
+        body = []
         for ei, ev in enumerate(evs):
-            lines.append(json.dumps(ev, sort_keys=True))
+            if ev.get("ev") == "Cmp":
+                ev = dict(ev)
+                ev["xi"] = num.setdefault(tuple(ev["x"]), len(num) + 1)
+                ev["yi"] = num.setdefault(tuple(ev["y"]), len(num) + 1)
+            body.append(json.dumps(ev, sort_keys=True))
+        lines.append(json.dumps({"ev": "Reset", "trace": name, "nk": len(num)}))
+        index.append((ti, -1))
+        for ei, line in enumerate(body):
+            lines.append(line)
             index.append((ti, ei))
     cfgname = "KeyOrderTrace_%s.cfg" % tag
     files = {"trace.ndjson": "\n".join(lines) + "\n",
